@@ -279,7 +279,7 @@ theorem step_spec {vs : List Val} {T S Bd : Int} (hne : vs ≠ []) (hsorted : So
       · have hym : y = m := addr_inj hsorted hy hm hya
         subst hym
         have := hmax x hx
-        simp only [hxa, hya, if_true, if_false]; omega
+        simp only [hxa, if_true, if_false]; omega
       · simp only [hxa, hya, if_false]; omega
   · intro x' hx'
     simp only [List.mem_map] at hx'
